@@ -9,9 +9,12 @@ ERRMAP = {'AttackGraphStepExpressionError': 'AttackGraphStepExpressionError', 'L
 
 def impl_generate(spec, inst, keep=False):
     from maltoolbox.attackgraph import AttackGraph
-    lg, fac = build_lang(spec)
-    m, byid = build_model(fac, inst)
     try:
+        lg, fac = build_lang(spec)
+        m, byid = build_model(fac, inst)
+        for a in inst['assets']:
+            # names chosen by the model (unnamed assets, automatic renaming of duplicates) are read back
+            a['name'] = str(byid[a['id']].name)
         g = AttackGraph(lg, m)
     except Exception as e:
         name = type(e).__name__
